@@ -12,6 +12,9 @@ AllUnits == {
   U("xmp", "unknownProp", 3), U("xmp", "li", 2), U("xmp", "knownProp", 3),
   U("bmff", "infeV0", 1), U("bmff", "infeV2", 2), U("bmff", "topFree", 1), U("bmff", "moovKid", 1), U("bmff", "ilocItem", 1),
   U("tiff", "entry", 1), U("tiff", "ifdChain", 2), U("tiff", "oolValue", 2),
+  U("tiff", "subIfd", 2),        \* one SubIFDs tag with n directory pointers, each to a small directory
+  U("tiff", "longArray", 1),     \* multi-valued fields the reader fetches: n LONG strip offsets, n SHORT ISO ratings
+  U("tiff", "byteArray", 1),     \* n bytes of UNDEFINED data (maker note, user comment)
   U("jpeg", "app", 1), U("jpeg", "exifSeg", 8), U("jpeg", "com64k", 4096),
   U("png", "chunk", 1) }
 \* a long token is not repeated; a small record is repeated up to the byte budget
